@@ -29,7 +29,7 @@ func newExec(w *World, ss *SpecSet, fn *ssa.Function, spec *FuncSpec) *Exec {
 		heapInfos: map[string]*heapInfo{}, obCount: map[string]int{}, assumed: map[string]bool{},
 		modset: map[string][]modLoc{}, closureIDs: map[string]*Closure{}, cardDone: map[string]bool{},
 		typeTags: map[string]int{}, boxAx: map[string]bool{}, usedSpecs: map[string]*FuncSpec{},
-		wsCache: map[*ssa.Function]map[string]bool{}, globalByRef: map[string]*ssa.Global{}, epochFrames: map[int]*epochFrame{}, boxClosures: map[string]*Closure{}}
+		wsCache: map[*ssa.Function]map[string]bool{}, globalByRef: map[string]*ssa.Global{}, epochFrames: map[int]*epochFrame{}, boxClosures: map[string]*Closure{}, defaultSpecs: map[string]*FuncSpec{}}
 	return e
 }
 
@@ -72,6 +72,7 @@ func verifyFunction(w *World, ss *SpecSet, fn *ssa.Function, spec *FuncSpec) (re
 	st := &State{id: 1, pc: "true", cells: map[*ssa.Alloc]Val{}, heaps: map[string]string{}, ghost: map[string]Val{}, nextRef: e.nextRef0}
 	e.entry = st.clone()
 	fr := e.newFrame(fn, spec, e.key)
+	e.topFrame = fr
 	fr.entrySt = e.entry
 	res.Loops = len(fr.loops.headers)
 	var args, binds []Val
